@@ -231,9 +231,9 @@ def handle(c):
         if not expect_err:
             ok = False
             sig = 'in-bounds-rejected' if not extrap else 'error-with-extrapolate'
-            msg = '%s on grids %s (extrapolate=%s): point(s) %s are inside the grid but %s was raised: %s' % (
-                name, [[str(v) for v in g] for g in gfr], extrap, [[str(v) for v in p] for p in pfr],
-                type(exc).__name__, str(exc)[:120])
+            msg = '%s on grids %s (extrapolate=%s), calls %s: point(s) %s must not raise (in-bounds, or extrapolation allowed) but %s was raised: %s' % (
+                name, [[str(v) for v in g] for g in gfr], extrap, c.get('calls') or ('one point per call' if c.get('history') else 'one call'),
+                [[str(v) for v in p] for p in pfr], type(exc).__name__, str(exc)[:120])
         elif not proper:
             ok = False
             sig = 'wrong-error-class'
